@@ -109,7 +109,30 @@ def to_smt2(ob, with_values=True):
   s.add(ob.formula())
   text = s.to_smt2()
   if with_values and ob.model_vars:
-    terms = ' '.join(t.sexpr() for t in ob.model_vars.values() if z3.is_expr(t))
+    # only terms whose free constants are declared by the formula can be queried
+    declared = set()
+    seen = set()
+
+    def consts(t, acc):
+      if t.get_id() in seen and acc is declared:
+        return
+      if acc is declared:
+        seen.add(t.get_id())
+      if z3.is_quantifier(t):
+        consts(t.body(), acc)
+        return
+      if z3.is_app(t):
+        if t.num_args() == 0 and t.decl().kind() == z3.Z3_OP_UNINTERPRETED:
+          acc.add(t.decl().name())
+        for c in t.children():
+          consts(c, acc)
+    consts(ob.formula(), declared)
+
+    def ok(t):
+      acc = set()
+      consts(t, acc)
+      return acc <= declared
+    terms = ' '.join(t.sexpr() for t in ob.model_vars.values() if z3.is_expr(t) and ok(t))
     if terms:
       text += f'\n(get-value ({terms}))\n'
   return text
